@@ -1,5 +1,5 @@
 (* C15/C16 driver.  line:  <max>;<ev>;<ev>...   (the concrete trace written by harness/impl/c15_impl.py)
-     ev : A t dN | P t dN | R dN c k | CO cid | CF cid n | DO did | DF did | T | G | X
+     ev : A t dN | P t dN | R dN c k | CO cid | CF cid n | DO did | DF did | T | G | X | K t
           followed by oracle fields  |recent=dN,..|avgnz=dN,..|cq=dN:q,..|capcrash=1|gcn=dN:k,..
    output: the state digest after every event, TAB separated (same format as the impl side);
            DISABLED when the model says the event is not enabled. *)
@@ -44,6 +44,7 @@ let parse_event s =
       | ["CF"; c; k] -> EConnFail (n c, k = "1")
       | ["DO"; d] -> EDiscOk (n d)
       | ["DF"; d] -> EDiscFail (n d)
+      | ["K"; t] -> ECancel (n t)
       | ["T"] -> ETick | ["G"] -> EGc | ["X"] -> ERun
       | _ -> failwith ("bad event " ^ s) in
     (e, o)
@@ -61,11 +62,14 @@ let kont_label s k = match k with
   | KPruneWake (t, _, _, ok) -> "Pw" ^ sn t ^ (if ok then "+" else "-")
   | KGatherCb _ -> "Gc"
   | KPruneFin t -> "Pf" ^ sn t
+  | KAcqDead t -> "Ac" ^ sn t
+  | KAcqWakeC (t, _) -> "Ac" ^ sn t
 let out_label o = match o with
   | OConnect (cid, d) -> "conn" ^ sn cid ^ ":" ^ sdb d
   | ODisconnect (did, c) -> "disc" ^ sn did ^ ":" ^ sn c
   | OAcquired (t, c) -> "acq" ^ sn t ^ ":" ^ sn c
   | OAcqFailed t -> "afail" ^ sn t
+  | OAcqCancelled t -> "acanc" ^ sn t
   | OReleaseErr k -> "rerr:" ^ (match int_of_n k with 1 -> "db" | 2 -> "nc" | 3 -> "nu" | _ -> "other")
   | OPruneDone t -> "pdone" ^ sn t
   | OPruneFailed t -> "pfail" ^ sn t
@@ -77,7 +81,7 @@ let digest s =
     cat ":" [sdb (bdb b);
              cat "" (List.map (fun (c, u) -> sn c ^ (if u then "+" else "-")) b.b_conns);
              cat "," (List.map sn b.b_stack);
-             cat "," (List.map (fun (t, _) -> sn t) b.b_waiters);
+             cat "," (List.map (fun (t, w) -> sn t ^ (match w with WDone -> "!" | _ -> "")) b.b_waiters);
              cat "," [sz b.b_pending; sz b.b_acq; sz b.b_nwait; sz b.b_quota; sb b.b_supp; sz b.b_fails]] in
   let live i = match find_live s i with Some b -> sdb (bdb b) | None -> "~" in
   cat "|" [head; cat "," (List.map (kont_label s) s.ready); cat "/" (List.map blk s.blocks);
